@@ -40,7 +40,7 @@ func cmdManifest() int {
 			"technique":  c.Technique,
 		})
 	}
-	var na []map[string]string
+	na := []map[string]string{}
 	for _, id := range allProps {
 		if !have[id] {
 			r := notApplicable[id]
